@@ -1,0 +1,12 @@
+//go:build verif
+
+package server
+
+// VerifSizes reports the number of peer connections and pending discovery entries
+// (verification harness only).
+func (s *Server) VerifSizes() (conns, multicastRequests, multicastHandlers int) {
+	s.connsMutex.Lock()
+	conns = len(s.conns)
+	s.connsMutex.Unlock()
+	return conns, s.multicastRequests.Length(), s.multicastHandler.Length()
+}
